@@ -2,6 +2,7 @@ SPECIFICATION MCFairSpec
 CONSTANTS
   NWriters = 3
   Mode = "local"
+  FirstUse = TRUE
   Recheck = TRUE
   TrackSched = FALSE
   CellMap = "separate"
